@@ -20,7 +20,7 @@ Theorem gen_checked_end_is_model d b first last : data_range d = Ok (Some (first
 Proof. intros E. unfold checked_end_time, BSgen.SeekGen.gen_checked_end. rewrite E. reflexivity. Qed.
 
 (* what the translated functions compute, stated without reference to the model: the start is the smallest timestamp the
-   bound admits, raised to the first line; the end the largest, lowered to the last line *)
+   bound allows, raised to the first line; the end the largest, lowered to the last line *)
 Theorem gen_checked_start_spec first last b v : (first <= last)%N -> (last < U64)%N ->
   BSgen.SeekGen.gen_checked_start first last b = Ok v ->
   (first <= v <= last)%N /\ match b with Incl t => v = N.max t first | Excl t => v = N.max (t + 1) first | Unb => v = first end.
